@@ -33,6 +33,102 @@ def _session(scratch, s, profile, nops, cfg, family=None):
     return ses
 
 
+# ---- large indexes (C05, C07, C08, C20) --------------------------------------------------------------------------
+BIG_QUERIES = {
+    "C05": lambda w, a, r: ["pages %d %s" % (w, a), "crawledpages %d %s" % (w, a)],
+    "C07": lambda w, a, r: ["network %s %s %s" % (r.choice("01"), r.choice("01"), r.choice("01"))],
+    "C08": lambda w, a, r: ["pagelinks %d %s %s" % (w, a, r.choice(["1 1 1", "0 1 1", "1 0 0", "0 0 1", "1 1 0"])),
+                            "weout %d %s" % (w, a), "wein %d %s" % (w, a)],
+    "C20": lambda w, a, r: ["mostlinked %d %s %s %s" % (w, a, r.choice(["2", "3", "10"]), r.choice(["-", "1", "2"]))],
+}
+
+
+def _big_index(prop, tier, seed, scratch, cfg, out):
+    """an index past the megabyte (the sizes at which a reader may switch to another way of reading the files): a bulk of
+    pages on many hosts, then a small site that is edited and asked about in turns, every question coming directly after a
+    request that wrote; answers judged by the oracle, and the whole history run through the model"""
+    from . import model, oracle
+    hits = []
+    judged = 0
+    for i in range(1 if tier == "quick" else 4):
+        r = random.Random(seed * 7907 + 8800 + i)
+        im = Impl(scratch)
+        try:
+            ses = Session(im, r, {"defaults": ["domain"], "init_rules": 0.0, "read_rate": 0.0, "g1": 1.0}, cfg=cfg)
+            ses.init()
+            bulk = [b"s:http|h:com|h:b%02d|p:%04x|" % (h, k) for h in range(45) for k in range(200)]
+            r.shuffle(bulk)
+            for j in range(0, len(bulk), 450):
+                ses.do("addpages %s %d" % (brack([hx(l) for l in bulk[j:j + 450]]), r.randint(0, 1)))
+            live, peer = b"s:http|h:com|h:live|", b"s:http|h:org|h:peer|"
+            lp = [live + b"p:%c|" % c for c in b"abcdef"]
+            pp = [peer + b"p:%c|" % c for c in b"xy"]
+            ses.do("addpages %s 0" % brack([hx(l) for l in lp + pp]))
+            for l in lp + pp:
+                ses.note(l); ses.pages.append(l)
+            ses.do("addlinks " + brack(["%s>%s" % (hx(r.choice(lp)), hx(r.choice(lp + pp))) for _ in range(4)] +
+                                       ["%s>%s" % (hx(r.choice(pp)), hx(r.choice(lp))) for _ in range(2)]))
+            for rnd in range(10 if tier == "quick" else 30):
+                m = ses.we_map()
+                w = next((k for k, v in m.items() if live in v), None)
+                if w is None:
+                    break
+                x = r.random()
+                fresh = r.choice(lp) + b"p:n%d|" % rnd
+                if x < 0.45:
+                    ses.do("addlinks " + brack(["%s>%s" % (hx(a_), hx(b_)) for a_, b_ in
+                                                [(r.choice(lp), r.choice(lp + pp + [fresh])), (r.choice(pp + [r.choice(bulk)]), r.choice(lp))][: r.randint(1, 2)]]))
+                elif x < 0.6:
+                    ses.do("addpage %s 1" % hx(r.choice(lp + [fresh])))
+                elif x < 0.75:
+                    ses.do("batch %s>%s" % (hx(r.choice(lp + [fresh])), ",".join(hx(t) for t in r.sample(lp + pp, 2))))
+                elif x < 0.9:
+                    ses.do("create " + brack([hx(r.choice(lp))]))
+                else:
+                    ses.do("addpages %s 1" % brack([hx(r.choice(lp)), hx(fresh)]))
+                ps = brack([hx(p_) for p_ in m[w]])
+                ses.do("? " + r.choice(BIG_QUERIES[prop](w, ps, r)))          # directly after the write
+            lines, results = list(ses.lines), list(ses.results)
+        finally:
+            im.close()
+        j = oracle.judge(lines, [a[0] for a in results])
+        judged += j.judged
+        fs = [f for f in j.findings if prop in f.props]
+        if fs:
+            hits.append({"kind": "oracle", "backend": "file", "lines": lines[: fs[0].idx + 1], "finding": fs[0].to_json()})
+            break
+        try:
+            mres = model.run_lines(lines)
+            mism = corr.compare(lines, results, mres, "file")
+            out.disagreements += len(mism)
+            if mism:
+                m0 = mism[0]
+                hits.append({"kind": "no-failing-input-found", "lines": lines[: m0.idx + 1],
+                             "no_longer_checks": ["correspondence slice of %s on a large index: model and implementation disagree on '%s' (%s)" % (prop, m0.kind(), m0.what)],
+                             "disagreement": m0.to_json()})
+                break
+        except Exception as e:  # noqa
+            out.notes.append("model driver unavailable for the large index: %r" % e)
+    out.extra["large_index"] = {"histories": i + 1, "nodes_at_least": 9000, "answers_judged": judged}
+    return hits[:1]
+
+
+def extra_C05(tier, seed, scratch, cfg, out):
+    return _big_index("C05", tier, seed, scratch, cfg, out)
+
+
+def extra_C07(tier, seed, scratch, cfg, out):
+    return _big_index("C07", tier, seed, scratch, cfg, out)
+
+
+def extra_C08(tier, seed, scratch, cfg, out):
+    return _big_index("C08", tier, seed, scratch, cfg, out)
+
+
+def extra_C20(tier, seed, scratch, cfg, out):
+    return _big_index("C20", tier, seed, scratch, cfg, out)
+
+
 # ---- C11 ------------------------------------------------------------------------------------------------------
 def extra_C11(tier, seed, scratch, cfg, out):
     hits = []
@@ -76,6 +172,17 @@ def extra_C11(tier, seed, scratch, cfg, out):
                     hits.append({"kind": "clear-differs-from-fresh", "lines": lines[: k + 1] + ["dump"],
                                  "finding": {"reason": "cleared index differs byte-wise from a fresh one holding the same rules",
                                              "cleared": a[:600], "fresh": b[:600]}})
+                # ... and behaves like it: the rules in force (the default one is held by the object, not by the files)
+                lr = hx(b"s:http|h:com|h:zz%d|p:a|p:b|" % k)
+                probes = ["? potential " + lr, "addpage %s 1" % lr, "? retrievewe " + lr, "? prefixiter", "dump"]
+                pa = [x[0] for x in corr.replay_impl(scratch, lines[: k + 1] + probes)[k + 1:]]
+                pb = [x[0] for x in corr.replay_impl(scratch, ["init file %s %s %s" % (w[1], w[2], cfg)] + probes)[1:]]
+                for q, x, y in zip(probes, pa, pb):
+                    if x != y:
+                        hits.append({"kind": "clear-differs-from-fresh", "lines": lines[: k + 1] + probes, "probes": len(probes),
+                                     "finding": {"reason": "a cleared index does not behave like a fresh one holding the same rules",
+                                                 "line": q, "cleared": x[:600], "fresh": y[:600]}})
+                        break
                 am = corr.replay_impl(scratch, lines[: k + 1] + ["dump"], backend="mem")[-1][0] \
                     if not any(x.startswith("reopen") for x in lines[: k + 1]) else None
                 bm = corr.replay_impl(scratch, ["init mem %s %s %s" % (w[1], w[2], cfg), "dump"])[-1][0]
@@ -249,6 +356,45 @@ def extra_C14(tier, seed, scratch, cfg, out):
                 im.close()
             if hits:
                 break
+    # reads in a session in which an append failed half-way (the device filled up; the caller caught the error and goes on
+    # asking): the torn bytes are the writer's, a query must leave them as they are
+    fault_reads = 0
+    if not hits:
+        from . import impl as _impl
+        for i in range(6 if tier == "quick" else 60):
+            r = random.Random(seed * 7907 + 14600 + i)
+            im = Impl(scratch)
+            try:
+                ses = Session(im, r, {"g1": 0.3, "read_rate": 0.0, "w": {"reopen": 0, "clear": 0}}, cfg=cfg)
+                ses.init()
+                for _ in range(4):
+                    getattr(ses, "w_" + r.choice(["addpage", "addlinks", "batch", "create"]))()
+                which = i % 2
+                for attempt in range(4):
+                    ses.do("fault %d %d" % (which, r.randint(0, 3)))
+                    getattr(ses, "w_" + (r.choice(["addlinks", "batch"]) if which else r.choice(["addpage", "batch", "addpages"])))()
+                    if _impl.FAULT[0] is None:
+                        break
+                fired = _impl.FAULT[0] is None
+                _impl.FAULT[0] = None
+                if not fired:
+                    continue
+                for q in ["? counts", "? metrics"] + CUT_OBSERVERS:
+                    before = im.images()
+                    ans, nw, _ = im.exec(q)
+                    after = im.images()
+                    fault_reads += 1
+                    if before != after or nw:
+                        hits.append({"kind": "query-modifies-store", "lines": ses.lines + [q], "backend": "file",
+                                     "finding": {"line": q, "answer": ans[:200], "storage_writes": nw,
+                                                 "lengths_before": [len(before[0]), len(before[1])], "lengths_after": [len(after[0]), len(after[1])],
+                                                 "reason": "a read-only request changed the files of a session in which an append had failed half-way"}})
+                        break
+            finally:
+                _impl.FAULT[0] = None
+                im.close()
+            if hits:
+                break
     # a read-only request through an index object that has been closed: it may be refused, it must not touch the files
     closed_reads = 0
     if not hits:
@@ -290,7 +436,7 @@ def extra_C14(tier, seed, scratch, cfg, out):
             if hits:
                 break
     out.extra["C14"] = {"reads_with_image_compared_before_after": reads, "reads_on_crash_cut_states": cut_reads,
-                        "reads_on_closed_objects": closed_reads}
+                        "reads_on_closed_objects": closed_reads, "reads_after_a_failed_append": fault_reads}
     return hits[:1]
 
 
@@ -374,7 +520,50 @@ def extra_C15(tier, seed, scratch, cfg, out):
 
 
 # ---- C17 ------------------------------------------------------------------------------------------------------
+_HARVEST = {}
+
+
+def harvest_literals(repo=None):
+    """byte/text literals of the code under test that look like pieces of an LRU (stems, stem runs, dotted host names):
+    a dictionary for the input generators, so that a table of special names in the source is exercised by its own entries"""
+    import ast, glob, re as _re
+    from .impl import REPO
+    repo = repo or REPO
+    if repo in _HARVEST:
+        return _HARVEST[repo]
+    runs, hosts = set(), set()
+    for f in glob.glob(os.path.join(repo, "traph", "**", "*.py"), recursive=True):
+        try:
+            tree = ast.parse(open(f, "rb").read())
+        except Exception:
+            continue
+        for n in ast.walk(tree):
+            if isinstance(n, ast.Constant) and isinstance(n.value, (bytes, str)):
+                v = n.value.encode("utf-8", "replace") if isinstance(n.value, str) else n.value
+                if not 0 < len(v) <= 80:
+                    continue
+                if v.endswith(b"|") and all(_re.match(rb"^[a-z]:[^|]*$", p) for p in v[:-1].split(b"|")):
+                    runs.add(v)
+                elif _re.match(rb"^[a-z]:[^|\s]{1,20}$", v):
+                    runs.add(v + b"|")
+                elif _re.match(rb"^[A-Za-z0-9-]{1,12}(\.[A-Za-z0-9-]{1,12}){1,3}$", v):
+                    hosts.add(b"".join(b"h:" + p + b"|" for p in reversed(v.split(b"."))))
+    res = sorted(runs | hosts)[:400]
+    _HARVEST[repo] = res
+    return res
+
+
 def _c17_lru(r):
+    hv = harvest_literals()
+    if hv and r.random() < 0.3:
+        sch = r.choice([b"s:http|", b"s:https|"])
+        port = r.choice([b"", b"", b"", b"t:80|"])
+        mid = r.choice(hv)
+        if not mid.startswith(b"h:"):
+            mid = r.choice([b"h:com|", b"h:com|h:a|", b""]) + (mid if not mid.startswith(b"s:") else b"")
+        pre = r.choice([b"", b"", b"h:com|", b"h:a|"]) if mid.startswith(b"h:") else b""
+        post = r.choice([b"", b"", b"h:www|", b"h:a|", b"h:a|h:www|", b"p:x|", b"h:www|p:x|"])
+        return sch + port + pre + mid + post
     sch = r.choice([b"s:http|", b"s:https|", b"s:http|", b"s:https|", b"s:ftp|", b"s:HTTP|", b"s:httpx|", b"s:h|"])
     port = r.choice([b"", b"", b"t:80|", b"t:443|"])
     hostpool = [b"h:com|", b"h:a|", b"h:www|", b"h:wwww|", b"h:b|", b"h:|", b"h:s:http|", b"h:h:www|", b"h:WWW|", b"h:Www|", b"h:com|"]
@@ -383,7 +572,7 @@ def _c17_lru(r):
     while len(hosts) >= 2 and hosts[-1] == b"h:www|" and hosts[-2] == b"h:www|":
         hosts[-1] = r.choice([b"h:a|", b"h:com|"])
     restpool = [b"p:s:http|", b"p:s:https|", b"p:h:www|", b"p:x|", b"q:h:com|h:a|".replace(b"|h", b";h"), b"p:|", b"f:s:http|",
-                b"p:xs:http|", b"p:\xff\x00|", b"q:a=h:www|", b"p:www|"]
+                b"p:xs:http|", b"p:\xff\x00|", b"q:a=h:www|", b"p:www|", b"p:a\nb|", b"q:\r\n|", b"f:\x0b\x0c\x85|"]
     rest = [r.choice(restpool) for _ in range(r.choice([0, 0, 1, 2, 3]))]
     return sch + port + b"".join(hosts) + b"".join(rest)
 
@@ -461,18 +650,21 @@ def extra_C18(tier, seed, scratch, cfg, out):
     the real code, run the observers; compare with the model on the same cut; pages and links of the cut
     must be reported by the completed history as well"""
     from . import model
-    from .impl import FULL_LOG
+    from .impl import FULL_LOG, PHYS_LOG, PHYS_ACTIVE, absolutize
     from .ref import stems_of
     hits = []
     nhist = 6 if tier == "quick" else 60
-    cuts_done = byte_cuts = refused = 0
+    cuts_done = byte_cuts = refused = phys_histories = 0
     for i in range(nhist):
         r = random.Random(seed * 7907 + 18000 + i)
         prof = dict(PROFILES["C18"]); prof["read_rate"] = 0.0
         if i % 2 == 0:
             prof["g1"] = 0.2            # arbitrary-byte stems with multi-block lengths
         im = Impl(scratch)
+        physical = False
         try:
+            del PHYS_LOG[:]
+            PHYS_ACTIVE[0] = True
             ses = Session(im, r, prof, cfg=cfg, family=("g2" if i % 2 == 0 else None))
             ses.init()
             if i % 2 == 0:                  # a node whose head and tail blocks are separate appends, early in the log
@@ -488,8 +680,14 @@ def extra_C18(tier, seed, scratch, cfg, out):
                 ses.do(r.choice(["clear - none", "clear - []", "clear domain []"]))
                 ses.run(r.randint(0, 4), skip_init=True)
             base_lines = list(ses.lines)
-            nlog = len(FULL_LOG)
-            log_kinds = [(k, o, len(d)) for k, o, d in FULL_LOG]
+            PHYS_ACTIVE[0] = False
+            phys = list(PHYS_LOG)
+            physical = phys != absolutize(FULL_LOG)      # the file objects did not receive the blocks in the order of the storage.write calls
+            if physical:
+                phys_histories += 1
+                im.phys_snapshot = phys
+            nlog = len(phys) if physical else len(FULL_LOG)
+            log_kinds = [(f, o, len(d)) for f, o, d in phys] if physical else [(k, o, len(d)) for k, o, d in FULL_LOG]
             final = {q: im.exec(q)[0] for q in ("? pagesiter", "? linksiter 1")}
             final_pages = set(x.split(":")[0] for x in _items(final["? pagesiter"]))
             final_links = set(_items(final["? linksiter 1"]))
@@ -506,8 +704,9 @@ def extra_C18(tier, seed, scratch, cfg, out):
             lines = list(base_lines)
             results = list(ses.results)
             for k, j in cuts:
-                a = im.exec("cut %d %d" % (k, j))
-                lines.append("cut %d %d" % (k, j)); results.append(a)
+                cutop = "cutp" if physical else "cut"
+                a = im.exec("%s %d %d" % (cutop, k, j))
+                lines.append("%s %d %d" % (cutop, k, j)); results.append(a)
                 cuts_done += 1
                 byte_cuts += 1 if j else 0
                 if a[0] != "ok":
@@ -538,10 +737,22 @@ def extra_C18(tier, seed, scratch, cfg, out):
                 if hits:
                     break
         finally:
+            PHYS_ACTIVE[0] = False
             im._uncut() if im.t is not None else None
             im.close()
+        if physical:
+            for h in hits:
+                h["physical"] = True
         if hits:
             break
+        if physical:
+            # the logical log is not what reaches the files: its cuts are not the crash points any more, and the
+            # model's account of them is not tied to this code; the physical cuts above found nothing
+            hits.append({"kind": "no-failing-input-found", "lines": base_lines,
+                         "no_longer_checks": ["correspondence slice of C18: the blocks reach the two file objects in another order (or in other pieces) "
+                                              "than the storage.write calls the model's write log follows; every cut of the physical order reopened and answered, "
+                                              "but the model no longer describes the crash points"]})
+            continue
         # the same cuts through the model
         try:
             mres = model.run_lines(lines)
@@ -577,7 +788,8 @@ def extra_C18(tier, seed, scratch, cfg, out):
                          "finding": {"reason": "a folder with one store missing fails with %s instead of the library's own error" % type(e).__name__}})
     finally:
         im.close()
-    out.extra["C18"] = {"histories": nhist, "cuts_reopened_with_real_code": cuts_done, "byte_granular_cuts": byte_cuts, "refused": refused}
+    out.extra["C18"] = {"histories": nhist, "cuts_reopened_with_real_code": cuts_done, "byte_granular_cuts": byte_cuts, "refused": refused,
+                       "histories_whose_physical_write_order_differs_from_the_logical_log": phys_histories}
     res, seen = [], set()
     for h in hits:
         key = (h["kind"], h.get("finding", {}).get("reason"))
@@ -790,6 +1002,29 @@ def _links_scenario(r, ses):
     return reqs, plan
 
 
+def _fat_scenario(r, ses, k):
+    """a hub page: one crawl batch gives a page several hundred links (the same few targets over and over: the lists are
+    multisets), another batch links the same pages; the first is suspended after k steps, the second runs to completion"""
+    tag = r.choice([b"hub", b"m"])
+    dom = b"s:http|h:com|h:" + tag + b"|"
+    hub, t1, t2, t3 = dom + b"p:hub|", dom + b"p:t1|", dom + b"p:t2|", dom + b"p:t3|"
+    known = r.sample([hub, t1, t2], r.randint(1, 3))
+    for l in (hub, t1, t2, t3):
+        ses.note(l); ses.pages.append(l)
+    ses.do("addpages %s 0" % brack([hx(l) for l in known]))
+    if r.random() < 0.5:
+        ses.do("addlinks " + brack(["%s>%s" % (hx(hub), hx(t1)), "%s>%s" % (hx(t2), hx(hub))]))
+    n1, n2 = r.choice([(300, 250), (501, 3), (520, 505), (1001, 2)])
+    big = {hub: [t1] * n1 + [t2] * n2}
+    if r.random() < 0.5:
+        big[t2] = [hub] * r.choice([1, 2, 600])
+    small = {hub: [t3] * r.randint(1, 2), t3: [t1, hub][: r.randint(1, 2)]}
+    enc = lambda data: ";".join("%s>%s" % (hx(a), ",".join(hx(t) for t in ts)) for a, ts in data.items())  # noqa
+    reqs = [("batch", enc(big), big), ("batch", enc(small), small)]
+    plan = [0] * k + [1] * 400
+    return reqs, plan
+
+
 def _net_pairs(a):
     ps = set()
     for row in _items(a):
@@ -915,7 +1150,9 @@ def extra_C16(tier, seed, scratch, cfg, out):
             for _ in range(r.randint(2, 7)):
                 getattr(ses, "w_" + r.choices(ses.WRITES, [prof["w"].get(k, 1.0) if k in prof["w"] else 1.0 for k in ses.WRITES])[0])()
             carve_plan = None
-            if i % 4 == 3:
+            if i % 60 == 5:
+                reqs, carve_plan = _fat_scenario(r, ses, 1 + (i // 60) % 5)
+            elif i % 4 == 3:
                 reqs, carve_plan = _carve_scenario(r, ses)
             elif i % 4 == 1:
                 reqs, carve_plan = _links_scenario(r, ses)
@@ -949,7 +1186,7 @@ def extra_C16(tier, seed, scratch, cfg, out):
             order = list(live)
             r.shuffle(order)
             plan = []
-            if carve_plan is not None and r.random() < 0.8:
+            if carve_plan is not None and (r.random() < 0.8 or i % 60 == 5):
                 plan = carve_plan
             elif block:
                 plan = [order[0]] * r.randint(1, 6) + [order[1 % len(order)]] * 200
